@@ -21,8 +21,9 @@ def main():
     ids = args or sorted(d for d in os.listdir(SEED) if os.path.isdir(os.path.join(SEED, d)))
     resf = os.path.join(SEED, 'RESULTS.json')
     results = json.load(open(resf)) if os.path.exists(resf) else {}
+    results = {k: v for k, v in results.items() if k not in ids}
     claimed = [c['property_id'] for c in json.load(open(os.path.join(ROOT, 'MANIFEST.json')))['checks']]
-    wt = '/tmp/seedrepo'
+    wt = f'/tmp/seedrepo_{os.getpid()}'
     sh(f'git -C /repo worktree remove --force {wt}')
     assert sh(f'git -C /repo worktree add --detach {wt} HEAD').returncode == 0
     env = dict(os.environ, PYTHONPATH=wt, VERIF_EVIDENCE_DIR='/tmp/seed_evidence')
@@ -43,7 +44,13 @@ def main():
                     r['checks'][pid] = 'not claimed'
                     continue
                 t = time.time()
+                if not sh(f'git -C {wt} diff --stat').stdout.strip():
+                    r['checks'][pid] = 'INVALID: patch not applied in the scratch worktree before the check'
+                    continue
                 p = sh(f'./check {pid} --tier quick', cwd=ROOT, env=env)
+                if not sh(f'git -C {wt} diff --stat').stdout.strip():
+                    r['checks'][pid] = 'INVALID: scratch worktree lost the patch during the check'
+                    continue
                 viol = [l for l in p.stdout.splitlines() if l.startswith('VIOLATION')]
                 r['checks'][pid] = {'exit': p.returncode, 'violations': len(viol), 'wall_s': round(time.time() - t, 1),
                                     'first': next((l for l in p.stdout.splitlines() if '  -> ' in l), '')[:300]}
